@@ -81,6 +81,7 @@ structure Ed where
   input : Input
   obs : List Obs          -- most recent first
   validatorCalls : List Text  -- most recent first
+  suspends : Nat := 0
 
 /-- state + early exit -/
 def EM (α : Type) : Type := Ed → Except (Outcome × Ed) (α × Ed)
@@ -1208,6 +1209,7 @@ def mainLoop : Nat → EM Unit
     | none => mainLoop fuel
     | some cmd =>
     if cmd == .suspend then do
+      modify (fun s => { s with suspends := s.suspends + 1 })
       refreshLine S U cfg
       mainLoop fuel
     else if cmd == .quotedInsert then do
